@@ -880,12 +880,15 @@ def rule_per_element(S, res, phases, cs):
                 if not inl:
                     continue
                 updates = []
+                no_cancel = set()      # `acc |= diff`: nothing cancels in an OR
                 for st in blk["s"]:
                     if st["k"] == "assign" and not st["p"]["pr"] and st["p"]["l"] in locs and st["r"]["k"] == "bin" and st["r"]["op"] in ACC_OPS:
                         a, b2 = st["r"]["a"], st["r"]["b"]
                         for x, y in ((a, b2), (b2, a)):
                             if x["k"] != "const" and not x["p"]["pr"] and _copy_of(b, x["p"]["l"], st["p"]["l"]) and y["k"] != "const":
                                 updates.append((st["p"]["l"], y))
+                                if st["r"]["op"] in ("BitOr", "BitAnd", "Mul"):
+                                    no_cancel.add(id(y))
                 t = blk["t"]
                 if t["k"] == "call":
                     nm = callee_names(t)
@@ -894,7 +897,15 @@ def rule_per_element(S, res, phases, cs):
                         tgt = _ref_target(b, t["args"][0]["p"]["l"])
                         if tgt in locs and t["args"][1]["k"] != "const":
                             updates.append((tgt, t["args"][1]))
+                            if tl in ("bitor_assign", "bitand_assign", "mul_assign"):
+                                no_cancel.add(id(t["args"][1]))
                 for acc, term in updates:
+                    # (b) the accumulator collects, over the *check positions* of the message (a loop whose counter
+                    # indexes the received data below the per-party level), a difference built from message values by
+                    # XOR only, and is tested once behind the loop: deviations at two positions cancel
+                    if id(term) not in no_cancel and _folds_over_positions(S, c, b, bk, inl, acc, term, all_comp):
+                        hit = (bi, acc)
+                        continue
                     # the accumulated term is a plain element of the message
                     tn = fg.backward(fg.operand_nodes(bk, term), node_ok=lambda x: x[0] == bk, edge_ok=lambda e: e.kind in ("copy", "ref", "cast") or (e.kind == "call" and (e.info or {}).get("names") and e.info["names"][-1].rsplit("::", 1)[-1] in ("deref", "clone", "copied", "cloned", "to_owned")))
                     if not any(x in all_comp for x in tn):
@@ -934,6 +945,74 @@ def rule_per_element(S, res, phases, cs):
     res.count("equality_checks_examined_for_aggregation", n)
     if not bad:
         res.ok("R2.8", "engine", "", "%d equality / zero checks on message data: none tests a value folded over the elements of a received vector" % n)
+
+
+_LINEAR_CALLS = ("deref", "clone", "copied", "cloned", "to_owned", "try_into", "from_be_bytes", "from_le_bytes", "from_ne_bytes", "map", "from", "into", "index", "get",
+                 "unwrap_or", "unwrap_or_default", "bitxor", "bitxor_assign", "as_ref", "borrow", "branch", "ok", "expect", "unwrap", "map_err", "as_slice")
+
+
+def _folds_over_positions(S, c, b, bk, inl, acc, term, all_comp):
+    fg = S.fg
+    if not inl:
+        return False
+    h, body = min(inl, key=lambda hb: len(hb[1]))
+    if not [d for d in defs_of(b, acc) if d[0] not in body]:
+        return False
+    # the check must sit behind the loop
+    if c.block in body:
+        return False
+
+    def lin(e):
+        if e.src[0] != bk:
+            return False
+        if e.kind in ("copy", "ref", "cast", "base2field", "field2whole", "index", "alias", "mutarg"):
+            return True
+        if e.kind == "bin":
+            return e.info == "BitXor"
+        if e.kind in ("call", "lcall"):
+            nm = (e.info or {}).get("names") if isinstance(e.info, dict) else None
+            return bool(nm) and nm[-1].rsplit("::", 1)[-1] in _LINEAR_CALLS
+        return False
+    tn = fg.backward(fg.operand_nodes(bk, term), node_ok=lambda x: x[0] == bk, edge_ok=lin, local=True)
+    comps = [x for x in tn if x in all_comp and (S.labels_of(x) & c.labels)]
+    if not comps:
+        return False
+    # the loop counter: item of the `next()` in this loop (innermost for it), used as the index of a message
+    # container that is not the per-party vector the receive primitive returned
+    import r1 as _r1
+    full = set()
+    for s_ in S.recv_sites:
+        if set(s_.label or []) & c.labels:
+            vt, T = _r1.validated_types(s_)
+            if T:
+                full.add(T)
+    for cbi, ct in b.calls():
+        if cbi not in body:
+            continue
+        cn = callee_names(ct)
+        if not cn or cn[-1].rsplit("::", 1)[-1] != "next" or not ct["args"] or ct["args"][0]["k"] == "const":
+            continue
+        inner = [hb for hb in S.loops(b) if cbi in hb[1]]
+        if not inner or min(inner, key=lambda hb: len(hb[1]))[0] != h:
+            continue
+        if "usize" not in b.locals[ct["d"]["l"]]["ty"]:
+            continue
+        cnt = fg.forward([(bk, ct["d"]["l"], None), (bk, ct["d"]["l"], 0)], node_ok=lambda x: x[0] == bk, edge_ok=lambda e: e.kind in ("copy", "base2field", "cast"))
+        cl = {x[1] for x in cnt}
+        for ibi, it in b.calls():
+            if ibi not in body:
+                continue
+            inm = callee_names(it)
+            if not inm or inm[-1].rsplit("::", 1)[-1] not in ("index", "index_mut", "get") or len(it["args"]) != 2 or it["args"][1]["k"] == "const" or it["args"][1]["p"]["l"] not in cl:
+                continue
+            rn = fg.operand_nodes(bk, it["args"][0])
+            rb = fg.backward(rn, node_ok=lambda x: x[0] == bk, edge_ok=secmod.struct_edge)
+            if not any(x in all_comp and (S.labels_of(x) & c.labels) for x in rb):
+                continue
+            rty = _r1.norm_ty(it["args"][0]["p"]["ty"])
+            if full and rty not in full and _r1.is_container(rty):
+                return True
+    return False
 
 
 _XOR_OK_CALLS = ("bitxor", "bitxor_assign", "deref", "clone", "copied", "cloned", "to_owned", "borrow", "as_ref")
